@@ -19,7 +19,7 @@ pub const C32: Check = Check {
     level: "fault_enumeration",
     rule: "the real command-line entry point (routinator's main, public API only) runs in a subprocess for vrps, validate, update and \
            server with every sequence of forced run outcomes (ok / retryable / fatal) up to length 4 (quick: all sequences up to \
-           length 3 plus sampled length 4) injected at the run's entry. Monitor: run.start events in a crash-safe event log + exit \
+           length 3 plus longer server histories with successes between the failures) injected at the run's entry. Monitor: run.start events in a crash-safe event log + exit \
            status. Oracle: one-shot commands start at most 2 runs and exit non-zero after the second failure (zero only after a \
            successful run); the server starts no run after a fatal failure or after its second retryable failure of a regular run, \
            and then exits. The supervisor kills the process when a third (one-shot) or excess (server) run.start appears: the \
@@ -96,6 +96,11 @@ fn run_c32(ctx: &mut Ctx, rep: &mut Report) {
     ];
     let mut cases = Vec::new();
     for (ci, _) in commands.iter().enumerate() { for s in &seqs { cases.push((ci, s.clone())); } }
+    // Longer server histories where successful runs separate the failures (a retry budget that is re-armed by a
+    // success shows only here).
+    for s in [vec![0u8, 1, 0, 1], vec![1, 1, 0, 1], vec![0, 0, 1, 0, 1], vec![0, 1, 0, 0, 1], vec![0, 1, 0, 1, 0, 1], vec![0, 1, 0, 2]] {
+        if !seqs.contains(&s) { cases.push((3, s)); }
+    }
     let total = cases.len();
     for (idx, (ci, seq)) in cases.into_iter().enumerate() {
         if idx % ctx.shards != ctx.shard { continue }
